@@ -200,17 +200,19 @@ def behaviour(typ, x, probes):
 
 class C10(Prop):
     id = "C10"
-    lean_modules = ["PkgProofs.Props.C10", "PkgProofs.Props.C08"]
+    lean_modules = ["PkgProofs.Props.C10", "PkgProofs.Props.C08", "PkgProofs.Props.C10Layout"]
     theorems = ["C10.version_eq_equivalence", "C10.version_eq_hash", "C10.version_eq_interchangeable",
                 "C10.spec_eq_equivalence", "C10.spec_eq_hash", "C10.spec_eq_same_contains",
                 "C10.set_eq_equivalence", "C10.set_eq_hash", "C10.set_eq_same_contains",
                 "C10.marker_eq_equivalence", "C10.marker_eq_hash", "C09.same_tokens_same_eval", "C09.eq_iff_same_str",
+                "C10.marker_layouts_interchangeable", "C10.marker_extra_spellings_interchangeable", "C10.evaluate_of_formula",
+                "C09.eq_hash_layout_independent",
                 "C10.tag_eq_iff", "C10.tag_eq_equivalence", "C10.tag_eq_same_fields",
                 "C08.eq_equivalence", "C08.hash_agrees", "C08.eq_is_pep503_and_spec_eq", "C08.extras_as_set",
                 "SSet.equal_specs_match_alike", "SSet.equal_specs_same_prereleases", "C05.eq_sets_match_alike"]
     trusted = ["hash() as an uninterpreted function of the key each __hash__ hashes",
                "the per-type models (see C01, C03/C05, C09, C14) are tied to the code by those properties' correspondence runs"]
-    partial = [               "Marker interchangeability is proved at token level (C09.same_tokens_same_eval); character-level only for the canonical layout",
+    partial = [               "Marker interchangeability is proved at token level (C09.same_tokens_same_eval) and at character level for any two layouts of one formula (C10.marker_layouts_interchangeable, marker_extra_spellings_interchangeable: same value or exception in every environment); literals with backslash/CR/LF/NUL/surrogates are outside the layouts",
                "Specifier.contains with prereleases=None: equal `===` clauses that differ in letter case are required to have the same text"]
     rule = ("for each of the six value types, triples (a, b, c): a and b equal for a non-obvious reason (spelling, trailing "
             "zeros, case, clause order/duplication, name normalisation, white space, quotes, parentheses), c a near miss; "
